@@ -54,6 +54,7 @@ class Prop(C02):
         if obs and obs[0] == -1:
             return 'panic in the RIB'
         full, best, addp = {}, {}, {}
+        delta = {}    # an add-path exporter that re-sends a path only if it is new to it or named by replaced_path_id
         deferring = False
         for k, (o, step) in enumerate(zip(c['ops'], obs)):
             chs, lim, st = step
@@ -71,6 +72,17 @@ class Prop(C02):
                 if ac:
                     if paths: addp[net] = ids
                     else: addp.pop(net, None)
+                    # end_deferral's changes are a fresh dump (best_changed and any_changed
+                    # both set for every destination): the exporter advertises them all
+                    cur = {} if o[0] == 'enddef' else delta.get(net, {})
+                    nxt = {}
+                    for i in ids:
+                        if i[0] in cur and (not rep or rep[0] != i[0]):
+                            nxt[i[0]] = cur[i[0]]
+                        else:
+                            nxt[i[0]] = i[1:]
+                    if nxt: delta[net] = nxt
+                    else: delta.pop(net, None)
             loc = {x[0]: x for x in st[0]}
             # destination ids unique among live prefixes
             dids = [x[1] for x in st[0]]
@@ -80,9 +92,10 @@ class Prop(C02):
                 if ch[0] in loc and loc[ch[0]][1] != ch[1]:
                     return 'step %d: change carries id %d for prefix %d whose id is %d' % (k, ch[1], ch[0], loc[ch[0]][1])
             if o[0] == 'enddef':
-                if sorted((ch[0], [tuple(map(tuple_, p)) for p in ch[5]]) for ch in chs) != \
-                   sorted((x[0], [tuple(map(tuple_, p)) for p in x[5]]) for x in st[0]):
-                    return 'step %d: end_deferral did not announce exactly the held prefixes' % k
+                # every prefix held is announced (with an empty list when nothing is eligible)
+                held = sorted(d[0] for d in st[1])
+                if sorted(ch[0] for ch in chs) != held:
+                    return 'step %d: end_deferral announced prefixes %s, the RIB holds %s' % (k, sorted(ch[0] for ch in chs), held)
             if deferring:
                 continue
             want_full = {n: [(p[0], p[1], p[2], tuple(p[3])) for p in x[5]] for n, x in loc.items()}
@@ -91,6 +104,9 @@ class Prop(C02):
             want_best = {n: v[0][1:] for n, v in want_full.items()}
             if best != want_best:
                 return 'step %d: a consumer skipping best_changed=false holds %s, the best paths are %s' % (k, best, want_best)
+            want_delta = {n: {p[0]: p[1:] for p in v} for n, v in want_full.items()}
+            if delta != want_delta:
+                return 'step %d: an add-path exporter that re-sends only new paths and the one named by replaced_path_id holds %s, the Loc-RIB is %s' % (k, delta, want_delta)
             if addp != want_full:
                 return 'step %d: a consumer skipping any_changed=false holds %s, the Loc-RIB is %s' % (k, addp, want_full)
         return None
